@@ -80,6 +80,10 @@ fn leaf_faults() -> Vec<(&'static str, E)> {
             Member::Field { name: FieldName::Expr(var("q")), plus: false, vis: Vis::Default, params: None, body: num(2) },
         ])),
         ("objcomp-name-sees-no-self", E::ObjComp { locals1: vec![], name: b(E::SelfE), plus: false, body: b(num(1)), locals2: vec![], specs: vec![Spec::For("q".into(), E::Array(vec![]))] }),
+        ("objcomp-name-sees-no-objlocal", E::ObjComp { locals1: vec![Bind { name: "w".into(), params: None, body: strlit("n") }], name: b(var("w")), plus: false, body: b(num(1)), locals2: vec![], specs: vec![Spec::For("q".into(), E::Array(vec![]))] }),
+        ("objcomp-name-sees-no-later-objlocal", E::ObjComp { locals1: vec![], name: b(var("w")), plus: false, body: b(num(1)), locals2: vec![Bind { name: "w".into(), params: None, body: strlit("n") }], specs: vec![Spec::For("q".into(), E::Array(vec![]))] }),
+        ("objcomp-name-sees-no-dollar", E::ObjComp { locals1: vec![], name: b(E::Field(b(E::Dollar), "a".into())), plus: false, body: b(num(1)), locals2: vec![], specs: vec![Spec::For("q".into(), E::Array(vec![]))] }),
+        ("ok-objcomp-name-sees-comp-var", E::ObjComp { locals1: vec![Bind { name: "w".into(), params: None, body: var("q") }], name: b(var("q")), plus: false, body: b(var("w")), locals2: vec![], specs: vec![Spec::For("q".into(), E::Array(vec![strlit("n")]))] }),
         ("ok-objcomp-body-self", E::ObjComp { locals1: vec![], name: b(var("q")), plus: false, body: b(E::SelfE), locals2: vec![Bind { name: "w".into(), params: None, body: var("q") }], specs: vec![Spec::For("q".into(), E::Array(vec![]))] }),
     ]
 }
